@@ -32,6 +32,12 @@ struct Out
     }
 };
 static uint64_t n_eval, n_nt;
+// argument hygiene: every argument expression of a library call is evaluated exactly once (a function-like macro in the
+// header that repeats an argument would evaluate it more often); E1 counts evaluations, HYG compares with the parameter count
+static int g_args;
+static std::string g_hyg;
+#define E1(x) (++g_args, (x))
+#define HYG(n, name, call) do { g_args = 0; call; if (g_args != (n) && g_hyg.empty()) { g_hyg = name; } } while (0)
 // bit-for-bit equality of two reals (an x87 long double has 10 value bytes followed by padding)
 static bool same_bits(a_real a, a_real b) { return memcmp(&a, &b, sizeof(a_real) == 16 ? 10 : sizeof(a_real)) == 0; }
 static std::string dims(std::initializer_list<unsigned> d)
@@ -69,10 +75,10 @@ static void product(int v, unsigned r, unsigned k, unsigned c, int content, unsi
     Out Z((size_t)r * c);
     switch (v)
     {
-    case 0: a_real_mulmm(r, k, c, X.data(), Y.data(), Z.p()); break;
-    case 1: a_real_mulTm(k, r, c, X.data(), Y.data(), Z.p()); break;
-    case 2: a_real_mulmT(r, c, k, X.data(), Y.data(), Z.p()); break;
-    case 3: a_real_mulTT(r, k, c, X.data(), Y.data(), Z.p()); break;
+    case 0: HYG(6, "mulmm", a_real_mulmm(E1(r), E1(k), E1(c), E1(X.data()), E1(Y.data()), E1(Z.p()))); break;
+    case 1: HYG(6, "mulTm", a_real_mulTm(E1(k), E1(r), E1(c), E1(X.data()), E1(Y.data()), E1(Z.p()))); break;
+    case 2: HYG(6, "mulmT", a_real_mulmT(E1(r), E1(c), E1(k), E1(X.data()), E1(Y.data()), E1(Z.p()))); break;
+    case 3: HYG(6, "mulTT", a_real_mulTT(E1(r), E1(k), E1(c), E1(X.data()), E1(Y.data()), E1(Z.p()))); break;
     }
     ++n_eval;
     n_nt += (r != c || k != r);
@@ -131,25 +137,25 @@ static void structure(unsigned m, unsigned n, int pattern = 0)
         }
     };
     auto a = [&](unsigned i, unsigned j) { return (double)A0[(size_t)i * n + j]; };
-    { Out T((size_t)m * n); a_real_T2(m, n, A.data(), T.p()); check("T2", T, n, m, [&](unsigned i, unsigned j) { return a(j, i); });
-      Out B((size_t)m * n); a_real_T2(n, m, T.p(), B.p()); check("T2-twice", B, m, n, [&](unsigned i, unsigned j) { return a(i, j); }); }
-    { Out E((size_t)m * n); a_real_eye2(m, n, E.p()); check("eye2", E, m, n, [&](unsigned i, unsigned j) { return i == j ? 1.0 : 0.0; }); }
-    { Out L((size_t)m * n); a_real_tri2(m, n, L.p()); check("tri2", L, m, n, [&](unsigned i, unsigned j) { return j <= i ? 1.0 : 0.0; }); }
-    { Out L((size_t)m * n); a_real_triL2(m, n, A.data(), L.p()); check("triL2", L, m, n, [&](unsigned i, unsigned j) { return j <= i ? a(i, j) : 0.0; }); }
-    { Out U((size_t)m * n); a_real_triU2(m, n, A.data(), U.p()); check("triU2", U, m, n, [&](unsigned i, unsigned j) { return j >= i ? a(i, j) : 0.0; }); }
-    { unsigned M = m < n ? m : n; Out d(M); a_real_diag2(m, n, A.data(), d.p()); check("diag2", d, 1, M, [&](unsigned, unsigned j) { return a(j, j); }); }
+    { Out T((size_t)m * n); HYG(4, "T2", a_real_T2(E1(m), E1(n), E1(A.data()), E1(T.p()))); check("T2", T, n, m, [&](unsigned i, unsigned j) { return a(j, i); });
+      Out B((size_t)m * n); HYG(4, "T2", a_real_T2(E1(n), E1(m), E1(T.p()), E1(B.p()))); check("T2-twice", B, m, n, [&](unsigned i, unsigned j) { return a(i, j); }); }
+    { Out E((size_t)m * n); HYG(3, "eye2", a_real_eye2(E1(m), E1(n), E1(E.p()))); check("eye2", E, m, n, [&](unsigned i, unsigned j) { return i == j ? 1.0 : 0.0; }); }
+    { Out L((size_t)m * n); HYG(3, "tri2", a_real_tri2(E1(m), E1(n), E1(L.p()))); check("tri2", L, m, n, [&](unsigned i, unsigned j) { return j <= i ? 1.0 : 0.0; }); }
+    { Out L((size_t)m * n); HYG(4, "triL2", a_real_triL2(E1(m), E1(n), E1(A.data()), E1(L.p()))); check("triL2", L, m, n, [&](unsigned i, unsigned j) { return j <= i ? a(i, j) : 0.0; }); }
+    { Out U((size_t)m * n); HYG(4, "triU2", a_real_triU2(E1(m), E1(n), E1(A.data()), E1(U.p()))); check("triU2", U, m, n, [&](unsigned i, unsigned j) { return j >= i ? a(i, j) : 0.0; }); }
+    { unsigned M = m < n ? m : n; Out d(M); HYG(4, "diag2", a_real_diag2(E1(m), E1(n), E1(A.data()), E1(d.p()))); check("diag2", d, 1, M, [&](unsigned, unsigned j) { return a(j, j); }); }
     if (m == n)
     {
-        { std::vector<a_real> S = A; Out T((size_t)n * n); memcpy(T.p(), S.data(), sizeof(a_real) * n * n); a_real_T1(n, T.p()); check("T1", T, n, n, [&](unsigned i, unsigned j) { return a(j, i); });
-          a_real_T1(n, T.p()); check("T1-twice", T, n, n, [&](unsigned i, unsigned j) { return a(i, j); }); }
-        { Out E((size_t)n * n); a_real_eye1(n, E.p()); check("eye1", E, n, n, [&](unsigned i, unsigned j) { return i == j ? 1.0 : 0.0; }); }
-        { Out L((size_t)n * n); a_real_tri1(n, L.p()); check("tri1", L, n, n, [&](unsigned i, unsigned j) { return j <= i ? 1.0 : 0.0; }); }
-        { Out L((size_t)n * n); a_real_triL(n, A.data(), L.p()); check("triL", L, n, n, [&](unsigned i, unsigned j) { return j <= i ? a(i, j) : 0.0; }); }
-        { Out L((size_t)n * n); a_real_triL1(n, A.data(), L.p()); check("triL1", L, n, n, [&](unsigned i, unsigned j) { return j < i ? a(i, j) : (i == j ? 1.0 : 0.0); }); }
-        { Out U((size_t)n * n); a_real_triU(n, A.data(), U.p()); check("triU", U, n, n, [&](unsigned i, unsigned j) { return j >= i ? a(i, j) : 0.0; }); }
-        { Out U((size_t)n * n); a_real_triU1(n, A.data(), U.p()); check("triU1", U, n, n, [&](unsigned i, unsigned j) { return j > i ? a(i, j) : (i == j ? 1.0 : 0.0); }); }
-        { std::vector<a_real> dv(n); for (unsigned i = 0; i < n; ++i) { dv[i] = (a_real)(3 + i); } Out D((size_t)n * n); a_real_diag(n, dv.data(), D.p()); check("diag", D, n, n, [&](unsigned i, unsigned j) { return i == j ? 3.0 + i : 0.0; }); }
-        { Out d(n); a_real_diag1(n, A.data(), d.p()); check("diag1", d, 1, n, [&](unsigned, unsigned j) { return a(j, j); }); }
+        { std::vector<a_real> S = A; Out T((size_t)n * n); memcpy(T.p(), S.data(), sizeof(a_real) * n * n); HYG(2, "T1", a_real_T1(E1(n), E1(T.p()))); check("T1", T, n, n, [&](unsigned i, unsigned j) { return a(j, i); });
+          HYG(2, "T1", a_real_T1(E1(n), E1(T.p()))); check("T1-twice", T, n, n, [&](unsigned i, unsigned j) { return a(i, j); }); }
+        { Out E((size_t)n * n); HYG(2, "eye1", a_real_eye1(E1(n), E1(E.p()))); check("eye1", E, n, n, [&](unsigned i, unsigned j) { return i == j ? 1.0 : 0.0; }); }
+        { Out L((size_t)n * n); HYG(2, "tri1", a_real_tri1(E1(n), E1(L.p()))); check("tri1", L, n, n, [&](unsigned i, unsigned j) { return j <= i ? 1.0 : 0.0; }); }
+        { Out L((size_t)n * n); HYG(3, "triL", a_real_triL(E1(n), E1(A.data()), E1(L.p()))); check("triL", L, n, n, [&](unsigned i, unsigned j) { return j <= i ? a(i, j) : 0.0; }); }
+        { Out L((size_t)n * n); HYG(3, "triL1", a_real_triL1(E1(n), E1(A.data()), E1(L.p()))); check("triL1", L, n, n, [&](unsigned i, unsigned j) { return j < i ? a(i, j) : (i == j ? 1.0 : 0.0); }); }
+        { Out U((size_t)n * n); HYG(3, "triU", a_real_triU(E1(n), E1(A.data()), E1(U.p()))); check("triU", U, n, n, [&](unsigned i, unsigned j) { return j >= i ? a(i, j) : 0.0; }); }
+        { Out U((size_t)n * n); HYG(3, "triU1", a_real_triU1(E1(n), E1(A.data()), E1(U.p()))); check("triU1", U, n, n, [&](unsigned i, unsigned j) { return j > i ? a(i, j) : (i == j ? 1.0 : 0.0); }); }
+        { std::vector<a_real> dv(n); for (unsigned i = 0; i < n; ++i) { dv[i] = (a_real)(3 + i); } Out D((size_t)n * n); HYG(3, "diag", a_real_diag(E1(n), E1(dv.data()), E1(D.p()))); check("diag", D, n, n, [&](unsigned i, unsigned j) { return i == j ? 3.0 + i : 0.0; }); }
+        { Out d(n); HYG(3, "diag1", a_real_diag1(E1(n), E1(A.data()), E1(d.p()))); check("diag1", d, 1, n, [&](unsigned, unsigned j) { return a(j, j); }); }
     }
 }
 
@@ -191,6 +197,7 @@ int main(int argc, char **argv)
         uint64_t e0 = n_eval, t0 = n_nt;
         for (unsigned m = 1; m <= S; ++m) { for (unsigned n = 1; n <= S; ++n) { if (R.shard.mine(item++)) { structure(m, n); structure(m, n, 1); structure(m, n, 2); } } }
         R.part(std::string("T1/T2/eye/tri/diag/triL/triL1/triU/triU1 and their rectangular forms on every (m, n) in 1..") + std::to_string(S) + "^2 (wide, square, tall), T2 and T1 applied twice", n_eval - e0, n_nt - t0);
+        if (!g_hyg.empty()) { R.viol(g_hyg + "|call|argument-evaluation", "a_real_" + g_hyg + " as spelled through a/linalg.h does not evaluate each argument expression exactly once (a macro repeats or drops an argument)", "{\"fn\":\"a_real_" + g_hyg + "\"}"); }
         R.sample("{\"fn\":\"a_real_mulmT\",\"row\":2,\"col\":3,\"inner\":1,\"X\":\"index-coded 2x1\",\"Y\":\"primes 3x1\",\"check\":\"Z == X*Y^T exactly, 24 guard cells on both sides untouched\"}");
         R.finish(true, "every listed shape enumerated");
     }, 60.0);
